@@ -468,46 +468,111 @@ def check_unescaper(ctx, f):
     # the fold in `unescaped`: start in Value, push exactly the Value payloads, accept only in Value
     U = hirq.Body(f, f.body(FP + 'unescaped'))
     ctx.analysed['bodies'].add(U.path)
-    cls_ = [n for n, c in walk(U.root) if n['k'] == 'Closure']
-    I2 = absx.Interp(f, U)
-    ok_init = ok_step = ok_acc = False
-    for c in cls_:
-        if not c['params']:
-            for o in I2.apply_closure(('closure', c['def']), [], absx.St({}), c):
-                v = o.val
-                ok_init = v[0] == 'tuple' and v[1][0] == ('ctor', 'Unescaper::Value', (('lit', 0),)) and v[1][1] == ('vec', ())
-        elif len(c['params']) == 2:
-            res = I2.apply_closure(('closure', c['def']), [('tuple', (('param', 'u'), ('vec', ()))), ('param', 'c')], absx.St({}), c)
-            good = 0
-            for o in res:
-                v = o.val
-                if o.kind not in ('val', 'ret') or v[0] != 'tuple':
-                    continue
-                st_t, vec = v[1]
-                fed = st_t[0] == 'call' and st_t[1] == FP + 'Unescaper::feed' and st_t[2] == (('param', 'u'), ('param', 'c'))
-                is_val = next((t for a, t in o.st.pc if a[0] == 'is' and a[2] == 'Unescaper::Value' and a[1] == st_t), None)
-                if fed and is_val is True and vec == ('vec', (('variant', st_t, 'Unescaper::Value', 0),)):
-                    good += 1
-                elif fed and is_val is False and vec == ('vec', ()):
-                    good += 1
-                else:
-                    good -= 10
-            ok_step = good == 2
-        elif len(c['params']) == 1:
-            res = I2.apply_closure(('closure', c['def']), [('tuple', (('param', 'u'), ('param', 'vec')))], absx.St({}), c)
-            good = 0
-            for o in res:
-                is_val = next((t for a, t in o.st.pc if a[0] == 'is' and a[2] == 'Unescaper::Value'), None)
-                if is_val is True and o.val == ('ctor', 'Ok', (('param', 'vec'),)):
-                    good += 1
-                elif is_val is False and o.val[0] == 'ctor' and o.val[1] == 'Err':
-                    good += 1
-                else:
-                    good -= 10
-            ok_acc = good == 2
+    ok_init, ok_step, ok_acc, ok_src, form = fold_facts(f, U)
     ctx.add('P5.fold-initial-state', 'unescaped', loc(U.root), ok_init, 'the unescaper must start in Value with an empty output')
     ctx.add('P5.fold-step', 'unescaped', loc(U.root), ok_step, 'each input byte must be fed to the unescaper and exactly the Value payloads pushed to the output')
     ctx.add('P5.accept-only-in-value', 'unescaped', loc(U.root), ok_acc, 'a value ending inside an escape sequence (or after a bad one) must be rejected')
+    ctx.add('P5.fold-over-consumed-bytes', 'unescaped', loc(U.root), ok_src, 'the bytes fed to the unescaper must be exactly the bytes the parser consumes (all of them, in order); form read: %s' % form)
+
+
+UNESC_VARIANTS = ['Unescaper::WantFirst', 'Unescaper::WantSecond', 'Unescaper::Value', 'Unescaper::Error']
+
+def is_value(pc, st_t):
+    """what a path condition says about `st_t is Unescaper::Value` (a test against another variant decides it too)"""
+    return sem.variant_truth(pc, lambda t: t == st_t, 'Unescaper::Value', UNESC_VARIANTS)
+
+def fold_facts(f, U):
+    """The value computation of `unescaped` is a fold of the consumed bytes through Unescaper::feed.  Its three parts - the initial
+    (state, output), the step and the acceptance test - are decided on the enumerated paths, for either way of writing a fold:
+      (a) nom's `map_res(fold_many0(byte parser, init, step), finish)`: the three closures are applied to symbolic arguments;
+      (b) a loop over the consumed bytes with the state and the output in loop-carried locals: the body is evaluated as one
+          generic iteration from an arbitrary carried (state, output) - the inductive step -, the values the locals hold when the
+          loop is entered are the base case, and the code after the loop is the acceptance test of whatever state the last
+          iteration left (the state term is opaque, so what is decided for it holds for the initial state of an empty value too).
+    Returns (init ok, step ok, accept ok, the bytes folded are the consumed ones, name of the form)."""
+    folds = [n for n, c in walk(U.root) if n['k'] == 'Call' and callee_of(n) == 'nom::multi::fold_many0' and len(n['args']) == 3]
+    I = absx.Interp(f, U, for_once=True)
+    I.carry_vecs = True
+    FEED = FP + 'Unescaper::feed'
+    payload = lambda st_t: ('variant', st_t, 'Unescaper::Value', 0)
+    if len(folds) == 1:
+        fold = folds[0]
+        finishes = [n for n, c in walk(U.root) if n['k'] == 'Call' and callee_of(n) == 'nom::combinator::map_res' and len(n['args']) == 2 and n['args'][0] is fold]
+        init_c, step_c = fold['args'][1], fold['args'][2]
+        if len(finishes) != 1 or any(x['k'] != 'Closure' for x in (init_c, step_c, finishes[0]['args'][1])):
+            return False, False, False, False, 'fold_many0 without closures / without a map_res acceptance test'
+        fin_c = finishes[0]['args'][1]
+        outs = [o for o in I.apply_closure(('closure', init_c['def']), [], absx.St({}), init_c)]
+        ok_init = bool(outs) and all(o.kind in ('val', 'ret') and o.val[0] == 'tuple' and len(o.val[1]) == 2 and o.val[1][0][0] == 'ctor'
+                                     and o.val[1][0][1] == 'Unescaper::Value' and o.val[1][1] == ('vec', ()) for o in outs)
+        u, c, acc = ('param', 'u'), ('param', 'c'), ('param', 'vec')
+        seen = set()
+        ok_step = True
+        for o in I.apply_closure(('closure', step_c['def']), [('tuple', (u, acc)), c], absx.St({}), step_c):
+            v = o.val
+            if o.kind not in ('val', 'ret') or v[0] != 'tuple' or len(v[1]) != 2:
+                ok_step = False; continue
+            st_t, vec = v[1]
+            fed = st_t[0] == 'call' and st_t[1] == FEED and st_t[2] == (u, c)
+            isv = is_value(o.st.pc, st_t)
+            seen.add(isv)
+            ok_step = ok_step and fed and ((isv is True and vec == ('vecpush', acc, payload(st_t))) or (isv is False and vec == acc))
+        ok_step = ok_step and seen == {True, False}
+        seen = set()
+        ok_acc = True
+        for o in I.apply_closure(('closure', fin_c['def']), [('tuple', (u, acc))], absx.St({}), fin_c):
+            isv = is_value(o.st.pc, u)
+            seen.add(isv)
+            ok_acc = ok_acc and o.kind in ('val', 'ret') and ((isv is True and o.val == ('ctor', 'Ok', (acc,))) or (isv is False and sem.is_err_result(o.val)))
+        ok_acc = ok_acc and seen == {True, False}
+        # fold_many0 folds the outputs of its element parser, one per application, in input order: by nom's definition
+        return ok_init, ok_step, ok_acc, True, 'fold_many0'
+    # (b) a loop
+    try:
+        outs = I.run()
+    except absx.TooManyPaths:
+        return False, False, False, False, 'too many paths'
+    ok_init = ok_step = ok_acc = ok_src = True
+    seen = set()
+    n_final = 0
+    for o in outs:
+        if o.kind in ('val', 'ret') and o.val[0] == 'tryerr':
+            continue                # the byte-class parser's own failure, propagated
+        carried = [e for e in o.st.ev if e[0] == 'loop-carried']
+        loops = {id(e[3]) for e in carried}
+        st_c = [e for e in carried if e[4][0] == 'ctor' and e[4][1].startswith('Unescaper::')]
+        out_c = [e for e in carried if e[4][0] == 'vec']
+        if o.kind not in ('val', 'ret') or len(loops) != 1 or len(carried) != 2 or len(st_c) != 1 or len(out_c) != 1:
+            return False, False, False, False, 'no single loop with a carried (state, output) pair on a path that ends in %s' % o.kind
+        n_final += 1
+        U0, V0 = st_c[0][2], out_c[0][2]           # the carried state and output at the head of the generic iteration
+        ok_init = ok_init and st_c[0][4][1] == 'Unescaper::Value' and out_c[0][4] == ('vec', ())
+        feeds = [a[1] for a, t in o.st.pc if a[0] == 'is' and a[1][0] == 'call' and a[1][1] == FEED]
+        feeds += [x for x in absx.leaves(o.val, lambda x: x[0] == 'call' and x[1] == FEED)]
+        F = feeds[0] if feeds else None
+        if F is None or any(x != F for x in feeds) or F[2][0] != U0 or F[2][1][0] != 'elem':
+            ok_step = False; continue
+        isv = is_value(o.st.pc, F)
+        seen.add(isv)
+        v = o.val
+        if isv is True:
+            # accepted, with the output of this iteration: what was carried in plus the payload of the new state
+            good = v[0] == 'ctor' and v[1] == 'Ok' and v[2][0][0] == 'tuple' and len(v[2][0][1]) == 2 and v[2][0][1][1] == ('vecpush', V0, payload(F))
+            ok_step = ok_step and good
+            ok_acc = ok_acc and good
+            if good:
+                rest = peg.prefix_split(v[2][0][1][0])
+                taken = peg.prefix_split(F[2][1][1])
+                ok_src = ok_src and rest is not None and taken is not None and rest[2] == 'rest' and taken[2] == 'taken' and rest[:2] == taken[:2]
+        elif isv is False:
+            # rejected; nothing was pushed for this byte (had it been, the vector would show up as a `push` event of this path)
+            pushes = [e for e in o.st.ev if e[0] == 'call' and e[1].endswith('::push')]
+            ok_step = ok_step and not pushes
+            ok_acc = ok_acc and sem.is_err_result(v)
+        else:
+            ok_step = ok_acc = False
+    both = seen == {True, False}
+    return ok_init and n_final > 0, ok_step and both, ok_acc and both, ok_src and both, 'loop over the consumed prefix'
 
 
 def run_thorough(ctx):
